@@ -86,18 +86,18 @@ Proof. apply only_close_nd, close_all_only_close. Qed.
 (* ====================================================================== *)
 (* receive_message in named pieces                                         *)
 (* ====================================================================== *)
-Definition rm_record (n : node) (m : msg) (o : String.string) : node :=
+Definition rm_record (n : node) (cid : nat) (m : msg) (o : String.string) : node :=
   if m_req m then
     set_waiting n (n_app_waiting n) (n_peer_waiting n)
-      ((List.filter (fun x => let '(h, e, _) := x in negb ((h =? m_hbh m) && (e =? m_e2e m))) (n_origin_waiting n))
-         ++ [(m_hbh m, m_e2e m, o)])%list
+      ((List.filter (fun x => negb (ow_key cid (m_hbh m) (m_e2e m) x)) (n_origin_waiting n))
+         ++ [(cid, m_hbh m, m_e2e m, o)])%list
       (n_sent_answers n)
   else n.
-Definition rm_n0 (n : node) (m : msg) : node :=
+Definition rm_n0 (n : node) (cid : nat) (m : msg) : node :=
   match m_origin m with
   | Undeclared => n
-  | Absent => rm_record n m "<none>"%string
-  | Present o => rm_record n m o
+  | Absent => rm_record n cid m "<none>"%string
+  | Present o => rm_record n cid m o
   end.
 Definition rm_dup (n0 : node) (m : msg) : bool :=
   match m_origin m with
@@ -123,29 +123,29 @@ Definition rm_handle (n0 : node) (cid : nat) (m : msg) : node * list output :=
 
 Lemma receive_message_unfold n cid m :
   receive_message n cid m =
-  match (if m_req m && g_validate (n_cfg (rm_n0 n m)) then m_missing m else []) with
-  | _ :: _ => send_message (rm_n0 n m) cid
+  match (if m_req m && g_validate (n_cfg (rm_n0 n cid m)) then m_missing m else []) with
+  | _ :: _ => send_message (rm_n0 n cid m) cid
                 (answer_of m (Some RC_MISSING_AVP) (if m_has_failed_avp_slot m then m_missing m else []))
-  | [] => if rm_dup (rm_n0 n m) m then send_message (rm_n0 n m) cid (answer_of m (Some RC_UNABLE) [])
-          else rm_handle (rm_n0 n m) cid m
+  | [] => if rm_dup (rm_n0 n cid m) m then send_message (rm_n0 n cid m) cid (answer_of m (Some RC_UNABLE) [])
+          else rm_handle (rm_n0 n cid m) cid m
   end.
 Proof. reflexivity. Qed.
 
-Lemma rm_n0_cfg n m : n_cfg (rm_n0 n m) = n_cfg n.
+Lemma rm_n0_cfg n cid m : n_cfg (rm_n0 n cid m) = n_cfg n.
 Proof. unfold rm_n0, rm_record. destruct (m_origin m), (m_req m); reflexivity. Qed.
-Lemma rm_n0_sa n m : n_sent_answers (rm_n0 n m) = n_sent_answers n.
+Lemma rm_n0_sa n cid m : n_sent_answers (rm_n0 n cid m) = n_sent_answers n.
 Proof. unfold rm_n0, rm_record. destruct (m_origin m), (m_req m); reflexivity. Qed.
-Lemma rm_n0_conns n m : n_conns (rm_n0 n m) = n_conns n.
+Lemma rm_n0_conns n cid m : n_conns (rm_n0 n cid m) = n_conns n.
 Proof. unfold rm_n0, rm_record. destruct (m_origin m), (m_req m); reflexivity. Qed.
-Lemma rm_n0_peers n m : n_peers (rm_n0 n m) = n_peers n.
+Lemma rm_n0_peers n cid m : n_peers (rm_n0 n cid m) = n_peers n.
 Proof. unfold rm_n0, rm_record. destruct (m_origin m), (m_req m); reflexivity. Qed.
-Lemma rm_n0_routes n m : n_routes (rm_n0 n m) = n_routes n.
+Lemma rm_n0_routes n cid m : n_routes (rm_n0 n cid m) = n_routes n.
 Proof. unfold rm_n0, rm_record. destruct (m_origin m), (m_req m); reflexivity. Qed.
-Lemma rm_n0_apps n m : n_apps (rm_n0 n m) = n_apps n.
+Lemma rm_n0_apps n cid m : n_apps (rm_n0 n cid m) = n_apps n.
 Proof. unfold rm_n0, rm_record. destruct (m_origin m), (m_req m); reflexivity. Qed.
-Lemma rm_n0_get_conn n m cid : get_conn (rm_n0 n m) cid = get_conn n cid.
+Lemma rm_n0_get_conn n cid m cid' : get_conn (rm_n0 n cid m) cid' = get_conn n cid'.
 Proof. unfold get_conn. rewrite rm_n0_conns. reflexivity. Qed.
-Lemma rm_n0_find_conn_peer n m c : find_conn_peer (rm_n0 n m) c = find_conn_peer n c.
+Lemma rm_n0_find_conn_peer n cid m c : find_conn_peer (rm_n0 n cid m) c = find_conn_peer n c.
 Proof. unfold find_conn_peer, get_peer. rewrite rm_n0_peers. reflexivity. Qed.
 
 Lemma rm_dup_nonreq n0 m : m_req m = false -> rm_dup n0 m = false.
@@ -234,7 +234,7 @@ Qed.
 
 Lemma receive_message_shape n cid m : rm_out cid m (snd (receive_message n cid m)).
 Proof.
-  rewrite receive_message_unfold. generalize (rm_n0 n m). intros n0.
+  rewrite receive_message_unfold. generalize (rm_n0 n cid m). intros n0.
   destruct (m_req m) eqn:Hreq.
   - destruct (if true && g_validate (n_cfg n0) then m_missing m else []) as [|x l];
       [|apply rm_out_send; exact Hreq].
@@ -785,7 +785,7 @@ Proof.
   rewrite send_message_pair. reflexivity.
 Qed.
 
-Lemma rm_dup_spec n m : m_req m = true -> rm_dup (rm_n0 n m) m = m_t m && already_answered n m.
+Lemma rm_dup_spec n cid m : m_req m = true -> rm_dup (rm_n0 n cid m) m = m_t m && already_answered n m.
 Proof.
   intros Hreq. unfold rm_dup, already_answered, origin_key. rewrite rm_n0_sa, Hreq.
   destruct (m_origin m); cbn [andb]; [rewrite Bool.andb_false_r|..]; reflexivity.
@@ -806,7 +806,7 @@ Proof.
   destruct (m_t m && already_answered n m).
   { rewrite send_message_out. reflexivity. }
   unfold rm_handle. rewrite Hreq, Hcmd.
-  rewrite (recv_app_request_spec (rm_n0 n m) cid c m) by (rewrite rm_n0_get_conn; exact Hc).
+  rewrite (recv_app_request_spec (rm_n0 n cid m) cid c m) by (rewrite rm_n0_get_conn; exact Hc).
   rewrite rm_n0_routes, rm_n0_apps, rm_n0_find_conn_peer.
   destruct (m_drealm m) as [| |realm]; try reflexivity.
   destruct (realm_entries (n_routes n) realm) as [entries|]; [|reflexivity].
@@ -1118,9 +1118,9 @@ Proof.
   - apply recv_app_request_clear_ok.
 Qed.
 
-Lemma validation_passes n m :
+Lemma validation_passes n cid m :
   g_validate (n_cfg n) = false \/ m_missing m = [] ->
-  (if m_req m && g_validate (n_cfg (rm_n0 n m)) then m_missing m else []) = [].
+  (if m_req m && g_validate (n_cfg (rm_n0 n cid m)) then m_missing m else []) = [].
 Proof.
   intros [H|H]; rewrite rm_n0_cfg, H.
   - rewrite Bool.andb_false_r. reflexivity.
@@ -1142,134 +1142,161 @@ Theorem C17_dup_iff n cid m o :
        (fst (receive_message n cid m), List.map out_clear_t (snd (receive_message n cid m)))).
 Proof.
   intros Hreq Ho Hval.
-  assert (Hdup : rm_dup (rm_n0 n m) m = m_t m && sa_mem (n_sent_answers n) o (m_e2e m)).
+  assert (Hdup : rm_dup (rm_n0 n cid m) m = m_t m && sa_mem (n_sent_answers n) o (m_e2e m)).
   { rewrite rm_dup_spec by exact Hreq. unfold already_answered, origin_key. rewrite Ho. reflexivity. }
   split.
   - intros [Ht Hmem].
     assert (Hout : snd (receive_message n cid m) = [OQueue cid (answer_of m (Some 5012) [])]).
-    { rewrite receive_message_unfold, (validation_passes n m Hval), Hdup, Ht, Hmem. cbn [andb].
+    { rewrite receive_message_unfold, (validation_passes n cid m Hval), Hdup, Ht, Hmem. cbn [andb].
       apply send_message_out. }
     split; [exact Hout|]. rewrite Hout. intros i m' [H|[]]. discriminate H.
   - intros Hno.
-    assert (Hd : rm_dup (rm_n0 n m) m = false).
+    assert (Hd : rm_dup (rm_n0 n cid m) m = false).
     { rewrite Hdup. destruct Hno as [H|H]; rewrite H; [reflexivity|apply Bool.andb_false_r]. }
     rewrite (receive_message_unfold n cid m), (receive_message_unfold n cid (clear_t m)).
-    change (rm_n0 n (clear_t m)) with (rm_n0 n m).
+    change (rm_n0 n cid (clear_t m)) with (rm_n0 n cid m).
     change (m_req (clear_t m)) with (m_req m).
     change (m_missing (clear_t m)) with (m_missing m).
-    rewrite (validation_passes n m Hval), Hd.
-    assert (Hd' : rm_dup (rm_n0 n m) (clear_t m) = false).
+    rewrite (validation_passes n cid m Hval), Hd.
+    assert (Hd' : rm_dup (rm_n0 n cid m) (clear_t m) = false).
     { unfold rm_dup. cbn [clear_t m_origin m_req m_t]. rewrite Bool.andb_false_r.
       destruct (m_origin m); reflexivity. }
     rewrite Hd'. apply rm_handle_clear_ok. exact Hreq.
 Qed.
 
 (* ---- record_answer ------------------------------------------------------------ *)
-(* the origin recorded for a received request's (hop-by-hop, end-to-end) pair *)
-Fixpoint ow_get (ow : list (Z * Z * string)) (hbh e2e : Z) : option string :=
+(* the origin recorded for a request received on connection cid with the (hop-by-hop, end-to-end) pair *)
+Fixpoint ow_get (ow : list (nat * Z * Z * string)) (cid : nat) (hbh e2e : Z) : option string :=
   match ow with
   | [] => None
-  | (h, e, o) :: r => if (h =? hbh) && (e =? e2e) then Some o else ow_get r hbh e2e
+  | x :: r => if ow_key cid hbh e2e x then Some (snd x) else ow_get r cid hbh e2e
   end.
 
-Lemma ow_get_find {T} ow hbh e2e (X : string -> T) (Y : T) :
-  match List.find (fun x : Z * Z * string => let '(h, e, _) := x in (h =? hbh) && (e =? e2e)) ow with
-  | Some (_, _, o) => X o
-  | None => Y
-  end = match ow_get ow hbh e2e with Some o => X o | None => Y end.
+Lemma ow_key_true cid hbh e2e c h e o :
+  ow_key cid hbh e2e (c, h, e, o) = true <-> c = cid /\ h = hbh /\ e = e2e.
 Proof.
-  induction ow as [|[[h e] o] r IH]; [reflexivity|].
-  cbn [List.find ow_get]. destruct ((h =? hbh) && (e =? e2e)); [reflexivity|exact IH].
+  unfold ow_key. rewrite !Bool.andb_true_iff, Nat.eqb_eq, !Z.eqb_eq. tauto.
 Qed.
 
-Lemma ow_get_none ow hbh e2e : ow_get ow hbh e2e = None <-> forall o, ~ List.In (hbh, e2e, o) ow.
+Lemma ow_get_find {T} ow cid hbh e2e (X : string -> T) (Y : T) :
+  match List.find (ow_key cid hbh e2e) ow with
+  | Some (_, _, _, o) => X o
+  | None => Y
+  end = match ow_get ow cid hbh e2e with Some o => X o | None => Y end.
 Proof.
-  induction ow as [|[[h e] o1] r IH]; cbn [ow_get].
+  induction ow as [|[[[c h] e] o] r IH]; [reflexivity|].
+  cbn [List.find ow_get]. destruct (ow_key cid hbh e2e (c, h, e, o)); [reflexivity|exact IH].
+Qed.
+
+Lemma ow_get_none ow cid hbh e2e :
+  ow_get ow cid hbh e2e = None <-> forall o, ~ List.In (cid, hbh, e2e, o) ow.
+Proof.
+  induction ow as [|[[[c h] e] o1] r IH]; cbn [ow_get].
   - split; [intros _ o []|reflexivity].
-  - destruct ((h =? hbh) && (e =? e2e)) eqn:Hk.
+  - destruct (ow_key cid hbh e2e (c, h, e, o1)) eqn:Hk.
     + split; [discriminate|]. intros H. exfalso. apply (H o1). left.
-      apply Bool.andb_true_iff in Hk. destruct Hk as [H1 H2].
-      apply Z.eqb_eq in H1. apply Z.eqb_eq in H2. subst. reflexivity.
+      apply ow_key_true in Hk. destruct Hk as (H1 & H2 & H3). subst. reflexivity.
     + rewrite IH. split.
       * intros H o [Hin|Hin]; [|exact (H o Hin)].
-        inversion Hin; subst. rewrite !Z.eqb_refl in Hk. discriminate Hk.
+        inversion Hin; subst.
+        assert (Ht : ow_key cid hbh e2e (cid, hbh, e2e, o) = true) by (apply ow_key_true; auto).
+        rewrite Ht in Hk. discriminate Hk.
       * intros H o Hin. apply (H o). right. exact Hin.
 Qed.
 
-Lemma ow_get_some_in ow hbh e2e o : ow_get ow hbh e2e = Some o -> List.In (hbh, e2e, o) ow.
+Lemma ow_get_some_in ow cid hbh e2e o :
+  ow_get ow cid hbh e2e = Some o -> List.In (cid, hbh, e2e, o) ow.
 Proof.
-  induction ow as [|[[h e] o1] r IH]; cbn [ow_get]; [discriminate|].
-  destruct ((h =? hbh) && (e =? e2e)) eqn:Hk.
-  - intros H. inversion H; subst. left.
-    apply Bool.andb_true_iff in Hk. destruct Hk as [H1 H2].
-    apply Z.eqb_eq in H1. apply Z.eqb_eq in H2. subst. reflexivity.
+  induction ow as [|[[[c h] e] o1] r IH]; cbn [ow_get]; [discriminate|].
+  destruct (ow_key cid hbh e2e (c, h, e, o1)) eqn:Hk.
+  - intros H. cbn [snd] in H. inversion H; subst. left.
+    apply ow_key_true in Hk. destruct Hk as (H1 & H2 & H3). subst. reflexivity.
   - intros H. right. exact (IH H).
 Qed.
 
-Definition ow_remove (ow : list (Z * Z * string)) (hbh e2e : Z) : list (Z * Z * string) :=
-  List.filter (fun x : Z * Z * string => let '(h, e, _) := x in negb ((h =? hbh) && (e =? e2e))) ow.
+Definition ow_remove (ow : list (nat * Z * Z * string)) (cid : nat) (hbh e2e : Z)
+  : list (nat * Z * Z * string) :=
+  List.filter (fun x => negb (ow_key cid hbh e2e x)) ow.
 
-Lemma ow_get_remove ow hbh e2e h' e' :
-  ow_get (ow_remove ow hbh e2e) h' e' =
-  if (h' =? hbh) && (e' =? e2e) then None else ow_get ow h' e'.
+(* the keys (cid, hbh, e2e) and (c', h', e') coincide *)
+Definition same_key (cid : nat) (hbh e2e : Z) (c' : nat) (h' e' : Z) : bool :=
+  Nat.eqb c' cid && (h' =? hbh) && (e' =? e2e).
+
+Lemma ow_get_remove ow cid hbh e2e c' h' e' :
+  ow_get (ow_remove ow cid hbh e2e) c' h' e' =
+  if same_key cid hbh e2e c' h' e' then None else ow_get ow c' h' e'.
 Proof.
-  unfold ow_remove. induction ow as [|[[h e] o1] r IH].
-  - cbn. destruct ((h' =? hbh) && (e' =? e2e)); reflexivity.
+  unfold ow_remove. induction ow as [|[[[c h] e] o1] r IH].
+  - cbn. destruct (same_key cid hbh e2e c' h' e'); reflexivity.
   - cbn [List.filter ow_get].
-    destruct ((h =? hbh) && (e =? e2e)) eqn:Hk; cbn [negb].
-    + rewrite IH. destruct ((h' =? hbh) && (e' =? e2e)) eqn:Hk'; [reflexivity|].
-      destruct ((h =? h') && (e =? e')) eqn:Hk''; [|reflexivity]. exfalso.
-      apply Bool.andb_true_iff in Hk. apply Bool.andb_true_iff in Hk''.
-      apply Bool.andb_false_iff in Hk'. lia.
+    destruct (ow_key cid hbh e2e (c, h, e, o1)) eqn:Hk; cbn [negb].
+    + rewrite IH. destruct (same_key cid hbh e2e c' h' e') eqn:Hk'; [reflexivity|].
+      destruct (ow_key c' h' e' (c, h, e, o1)) eqn:Hk''; [|reflexivity]. exfalso.
+      apply ow_key_true in Hk. apply ow_key_true in Hk''.
+      destruct Hk as (-> & -> & ->). destruct Hk'' as (<- & <- & <-).
+      unfold same_key in Hk'. rewrite Nat.eqb_refl, !Z.eqb_refl in Hk'. discriminate Hk'.
     + cbn [ow_get]. rewrite IH.
-      destruct ((h' =? hbh) && (e' =? e2e)) eqn:Hk'; [|reflexivity].
-      destruct ((h =? h') && (e =? e')) eqn:Hk''; [|reflexivity]. exfalso.
-      apply Bool.andb_true_iff in Hk'. apply Bool.andb_true_iff in Hk''.
-      apply Bool.andb_false_iff in Hk. lia.
+      destruct (same_key cid hbh e2e c' h' e') eqn:Hk'; [|reflexivity].
+      destruct (ow_key c' h' e' (c, h, e, o1)) eqn:Hk''; [|reflexivity]. exfalso.
+      apply ow_key_true in Hk''. destruct Hk'' as (-> & -> & ->).
+      unfold same_key in Hk'. unfold ow_key in Hk. rewrite Hk' in Hk. discriminate Hk.
 Qed.
 
-Lemma record_answer_eq n hbh e2e :
-  record_answer n hbh e2e =
-  match ow_get (n_origin_waiting n) hbh e2e with
+Lemma record_answer_eq n cid hbh e2e :
+  record_answer n cid hbh e2e =
+  match ow_get (n_origin_waiting n) cid hbh e2e with
   | Some origin =>
-      set_waiting n (n_app_waiting n) (n_peer_waiting n) (ow_remove (n_origin_waiting n) hbh e2e)
+      set_waiting n (n_app_waiting n) (n_peer_waiting n) (ow_remove (n_origin_waiting n) cid hbh e2e)
         (sa_append (g_rsize (n_cfg n)) (n_sent_answers n) origin e2e)
   | None => n
   end.
 Proof.
   unfold record_answer, ow_remove.
-  exact (ow_get_find (n_origin_waiting n) hbh e2e
+  exact (ow_get_find (n_origin_waiting n) cid hbh e2e
            (fun origin => set_waiting n (n_app_waiting n) (n_peer_waiting n)
-              (List.filter (fun x : Z * Z * string => let '(h, e, _) := x in negb ((h =? hbh) && (e =? e2e))) (n_origin_waiting n))
+              (List.filter (fun x => negb (ow_key cid hbh e2e x)) (n_origin_waiting n))
               (sa_append (g_rsize (n_cfg n)) (n_sent_answers n) origin e2e)) n).
 Qed.
 
 (* C17: sending the answer to a recorded request appends its end-to-end id to the origin's window
    (and to no other), and forgets the record (and no other); for an unrecorded pair nothing changes *)
-Theorem C17_record n hbh e2e :
-  (forall o, ow_get (n_origin_waiting n) hbh e2e = Some o ->
-     let n' := record_answer n hbh e2e in
+(* (was, before the origin table was keyed by connection:  Theorem C17_record n hbh e2e, with
+   ow_get ... hbh e2e, record_answer n hbh e2e and entries (hbh, e2e, o')) *)
+Theorem C17_record n cid hbh e2e :
+  (forall o, ow_get (n_origin_waiting n) cid hbh e2e = Some o ->
+     let n' := record_answer n cid hbh e2e in
      sa_get (n_sent_answers n') o = bounded_append (g_rsize (n_cfg n)) (sa_get (n_sent_answers n) o) e2e
      /\ (forall o', o' <> o -> sa_get (n_sent_answers n') o' = sa_get (n_sent_answers n) o')
-     /\ ow_get (n_origin_waiting n') hbh e2e = None
-     /\ (forall o', ~ List.In (hbh, e2e, o') (n_origin_waiting n'))
-     /\ (forall h e, (h =? hbh) && (e =? e2e) = false ->
-           ow_get (n_origin_waiting n') h e = ow_get (n_origin_waiting n) h e)
+     /\ ow_get (n_origin_waiting n') cid hbh e2e = None
+     /\ (forall o', ~ List.In (cid, hbh, e2e, o') (n_origin_waiting n'))
+     /\ (forall c h e, same_key cid hbh e2e c h e = false ->
+           ow_get (n_origin_waiting n') c h e = ow_get (n_origin_waiting n) c h e)
      /\ n_cfg n' = n_cfg n /\ n_conns n' = n_conns n /\ n_peers n' = n_peers n /\ n_apps n' = n_apps n
      /\ n_app_waiting n' = n_app_waiting n /\ n_peer_waiting n' = n_peer_waiting n)
-  /\ (ow_get (n_origin_waiting n) hbh e2e = None -> record_answer n hbh e2e = n).
+  /\ (ow_get (n_origin_waiting n) cid hbh e2e = None -> record_answer n cid hbh e2e = n).
 Proof.
   split.
   - intros o Ho. cbv zeta. rewrite record_answer_eq, Ho. cbn [set_waiting n_sent_answers n_origin_waiting
       n_cfg n_conns n_peers n_apps n_app_waiting n_peer_waiting].
     destruct (C17_window (g_rsize (n_cfg n)) (n_sent_answers n) o e2e) as [W1 W2].
-    assert (Hnone : ow_get (ow_remove (n_origin_waiting n) hbh e2e) hbh e2e = None).
-    { rewrite ow_get_remove, !Z.eqb_refl. reflexivity. }
+    assert (Hnone : ow_get (ow_remove (n_origin_waiting n) cid hbh e2e) cid hbh e2e = None).
+    { rewrite ow_get_remove. unfold same_key. rewrite Nat.eqb_refl, !Z.eqb_refl. reflexivity. }
     split; [exact W1|]. split; [exact W2|]. split; [exact Hnone|].
     split; [apply ow_get_none; exact Hnone|].
     split; [|repeat split].
-    intros h e Hk. rewrite ow_get_remove, Hk. reflexivity.
+    intros c h e Hk. rewrite ow_get_remove, Hk. reflexivity.
   - intros Hn. rewrite record_answer_eq, Hn. reflexivity.
+Qed.
+
+(* C17: in particular the records of OTHER connections carrying the same (hop-by-hop, end-to-end) pair
+   survive the answer (hop-by-hop identifiers are unique per connection only) *)
+Corollary C17_record_other_conn n cid hbh e2e o c :
+  ow_get (n_origin_waiting n) cid hbh e2e = Some o -> c <> cid ->
+  ow_get (n_origin_waiting (record_answer n cid hbh e2e)) c hbh e2e = ow_get (n_origin_waiting n) c hbh e2e.
+Proof.
+  intros Ho Hc. destruct (C17_record n cid hbh e2e) as [H _].
+  destruct (H o Ho) as (_ & _ & _ & _ & Hk & _). apply Hk.
+  unfold same_key. apply Nat.eqb_neq in Hc. rewrite Hc. reflexivity.
 Qed.
 
 (* ====================================================================== *)
@@ -1379,10 +1406,11 @@ Example C17_example :
      = (fst (receive_message ex_node 0 (ex_req 4 11 true (Present "r"%string) [])),
         List.map out_clear_t (snd (receive_message ex_node 0 (ex_req 4 11 true (Present "r"%string) []))))
   /\ (let n1 := fst (receive_message ex_node 0 ex_good) in
-      ow_get (n_origin_waiting n1) 7 11 = Some "p"%string
-      /\ sa_get (n_sent_answers (record_answer n1 7 11)) "p"%string = [9; 11]
-      /\ n_origin_waiting (record_answer n1 7 11) = []
-      /\ record_answer n1 7 12 = n1).
+      ow_get (n_origin_waiting n1) 0 7 11 = Some "p"%string
+      /\ sa_get (n_sent_answers (record_answer n1 0 7 11)) "p"%string = [9; 11]
+      /\ n_origin_waiting (record_answer n1 0 7 11) = []
+      /\ record_answer n1 0 7 12 = n1
+      /\ record_answer n1 1 7 11 = n1).
 Proof.
   vm_compute. repeat split.
   constructor; [intros []|constructor].
@@ -1409,6 +1437,7 @@ Print Assumptions C17_sa_mem_get.
 Print Assumptions C17_sa_nodup.
 Print Assumptions C17_dup_iff.
 Print Assumptions C17_record.
+Print Assumptions C17_record_other_conn.
 Print Assumptions C07_example.
 Print Assumptions C08_example.
 Print Assumptions C17_example.
